@@ -58,11 +58,24 @@ PROPS = {
              "explicit unsafe mode; unsafe root compared with the real and the model root of the document without them; non-trivial = at least one undefined property; distinct = distinct (op,input) hashes",
              shards=(8, 16), n=(12, 200),
              trusted=["json-gold decides what 'does not expand to an absolute IRI' means and performs the dropping; the repository contributes the default and the option plumbing"]),
+    "C05": P("cases = generated credentials (merklized schemas and schemas with a serialization attribute assigning 1-4 slots, nested fields; with/without subject id, expiration incl. pre-1970, credential id; subject type as "
+             "string / two-element array / absent with top-level fallback; malformed subject DIDs) x option sets (positions incl. unknown strings, updatable, version and nonce at 0 / 1 / max / random, nil options) on fresh objects, "
+             "plus histories of 2-6 calls over two credentials of different schema kinds sharing two options objects; every case non-trivial; distinct = distinct (op,input) hashes",
+             shards=(8, 16), n=(25, 400),
+             trusted=["Keccak-256 (x/crypto, oracle column schemaOf)", "core.IDFromDID / w3c.ParseDID (oracle column subject)", "go-iden3-core Claim (re-modelled in Gsp.Claim, compared slot by slot)",
+                      "document -> root: the credential is merklized by the harness directly (json-gold + merklizer, see C01-C03)"]),
 }
 
 NOT_APPLICABLE = {}
 
 MANIFEST_TEXT = {
+    "C05": dict(
+        text="Lean theorems (Gsp.Props.C05 over Gsp.Claim, a byte-faithful model of go-iden3-core's claim setters and of ToCoreClaim): whenever toCoreClaim succeeds the claim equals the closed form the statement describes "
+             "(toCoreClaim_spec: schema hash of the resolved type; nonce, version, updatable as given; expiration flag iff present with Unix seconds mod 2^64; identifier in the requested/default position iff the subject has an id; "
+             "root in the requested/default position for merklized schemas, the designated slots and no root for serialized ones) and an independent div/mod decoder reads every input back (decode_encode); a root position with a "
+             "serialization attribute and unknown positions are errors (root_pos_error, unknown_root_pos_error); over any history of calls sharing objects the store is unchanged and each result is the stand-alone result (history_pure). "
+             "Tie: real ToCoreClaim vs the model slot by slot, an independent Go decoder checking the statement, deep comparison of options and credential before/after, histories vs fresh objects.",
+        note="Defect D6 (options rewritten in place) was found by this check and fixed in /repo (029bdcf). Keccak and DID->ID are oracle columns."),
     "C13": dict(
         text="Lean theorems over a token-level codec model (Gsp.Codec): an entry decodes to itself whatever follows (entry_roundtrip, all value kinds incl. negative big integers); the merklizer image decodes to the same "
              "source/compacted/root/safe-mode/entries and the tree is rebuilt from exactly the stored entries (mz_roundtrip, entries_roundtrip); a tree rebuilt in another insertion order has the same content "
